@@ -29,6 +29,15 @@ PROPS = {
                  'EndOfFile only at the true end, every other token consumes at least one byte',
         'not_decided': ['the YAML BuildFile loader', 'rule-variable recursion in ManifestLoader'],
     },
+    'C20': {
+        'units': ['capi'],
+        'design_ref': 'DESIGN.md section 4, C20',
+        'claim': 'the C entry points llb_buildengine_task_needs_input / must_follow / discovered_dependency / task_is_complete / '
+                 'build / attach_db call the C++ engine exactly once with the key or value bytes and explicit length (NUL-safe), '
+                 'the same input id, force_change, schema version and recreateUnmatchedVersion == true, and return the engine\'s answer',
+        'not_decided': ['event-by-event equality of whole builds (follows from the forwarders being identities)',
+                        'the CAPIRule/CAPITask callback wrappers and BuildDB-C-API.cpp'],
+    },
 }
 
 NOT_APPLICABLE = {
